@@ -145,6 +145,7 @@ def check(case, mon, ctx):
     with contextlib.redirect_stdout(io.StringIO()):
         b, h, t = eng.parse(maps.copy(), ds)
     mon.count('parse_calls')
+    mon.observe('parsed lines', sorted([np.round(np.asarray(bb, dtype=np.float64), 3).tolist(), np.round(np.asarray(hh, dtype=np.float64), 3).tolist()] for bb, hh in zip(b, h)))
     if len(b) != len(case['ridges']) or len(h) != len(b) or len(t) != len(b):
         mon.violation('one-line-per-ridge', {'lines': len(b), 'ridges': len(case['ridges']), 'first_points': [bb[0].tolist() for bb in b][:8]})
         return
